@@ -334,6 +334,9 @@ func registerLife(prop, title string) {
 				jobs = append(jobs, mc.Job{Name: "C01-nil-output", Run: c01NilOutput})
 				jobs = append(jobs, twoProvJob(prop, depth4(tier)))
 			}
+			if prop == "C03" {
+				jobs = append(jobs, rbJobs("C03", depth4(tier)+1)...)
+			}
 			nps := []int{1, 2}
 			if tier == "thorough" {
 				nps = append(nps, 3)
